@@ -344,6 +344,9 @@ class _ProtoExpect:
                 if names:
                     probs.add('fidelity:frame-type', 'frame %d carries variables under %s' % (i, ft))
                 continue
+            from vf import e2e as _e2e
+            if real['file'] != _e2e.TARGET:
+                continue  # harness / threading frames: their locals are the monitor's own moving state
             if set(names) != set(real['locals']):
                 probs.add('fidelity:missing-local', 'received frame %d variables %s, locals %s' % (
                     i, sorted(names), sorted(real['locals'])))
